@@ -54,7 +54,9 @@ CLAIMS = {
             'Unbounded deductive proof (Verus): DecoderState::new and reset_state establish fresh(props) over the COMPLETE state (every '
             'probability array, trees, length decoders, state, reps, literal table of the right dimension), fresh states have the same '
             'model view (lemma_fresh_model), LzmaDecoder::reset / Lzma2Decoder::reset re-establish the precondition of decompress, and '
-            'decompress is a function of the view only.',
+            'decompress is a function of the view only. decompress (LZMA and LZMA2) re-establishes usable() on EVERY exit, also after a '
+            'decode that failed half-way (wf() of the decoder state is a postcondition of every step on Ok and Err), so reset is callable '
+            'whatever happened before.',
             'Verus function contracts (field-by-field fresh predicate)', '5 C14'),
     'C03': (True,
             'Unbounded deductive proof (Verus): xz_decompress / decode_stream REFINE the container spec sp_xz transcribed from '
@@ -128,8 +130,10 @@ CLAIMS = {
             'site, every loop has a verified decreases measure (symbol loop: (input length, range) lexicographic; carried-over buffer added for '
             'the streaming mode), and the data-structure invariants wf() hold after every operation on every exit. Memory: window allocation is '
             'proved lazy (buf.len() <= min(dict_size, bytes produced) <= memlimit, CB.new.noalloc), the literal table is 0x300 << (lc+lp) with '
-            'lc+lp <= 12 by props < 225. Defects D2 (footer overflow) and D3 (dict_size 0) were found as failing obligations and fixed. '
-            'NOT COVERED: src/error.rs conversions, Vec2D (4 assumed contracts), Stream::{new, get_output, get_output_mut}, lzma_decompress '
+            'lc+lp <= 12 by props < 225; every explicit allocation call (vec![e; n], with_capacity, resize, reserve - extractor rule R20) '
+            'carries the obligation alloc_ok(n): n <= 4 Mi elements (a constant of the format) or justified by data already held '
+            '(trusted axiom_alloc_held, used for the window growing one produced byte at a time and for read_tag). Defects D2 (footer overflow) and D3 (dict_size 0) were found as failing obligations and fixed. '
+            'NOT COVERED: src/error.rs conversions, Vec2D (3 assumed contracts), Stream::{new, get_output, get_output_mut}, lzma_decompress '
             '(one-line wrapper), allocation failure itself, and stack depth.',
             'Verus safety obligations (overflow, bounds, termination, invariants) on mechanically extracted real code', '5 C07'),
     'C12': (True,
